@@ -171,7 +171,7 @@ impl Cfg {
             device_whiles: true,
             shared_cols: false,
             wide_inputs: false,
-            dup_rows: false,
+            dup_rows: true,
             virtual_random: false,
             vars_like_signals: true,
         }
